@@ -52,7 +52,7 @@ def coq_table(spec, intern):
         elif n["kind"] == "p":
             k = "SPlain true"
         elif n["kind"] == "v":
-            k = "SVar None" if n["vkind"] == "unsupported" else "SVar (Some %d)" % intern(("val", n["value"]))
+            k = "SVar None" if n["vkind"] in ("unsupported", "mixedset") else "SVar (Some %d)" % intern(("val", n["value"]))
         else:
             k = "SUndef"
         rows.append("(%d, {| s_kind := %s; s_code := %d; s_defaults := %d; s_refs := %s |})" % (i, k, code, dflt, C.coq_list(map(str, refs))))
@@ -211,7 +211,7 @@ def run(tier, seed):
                     ed = {"calls": calls, "version_order": ms, "how": how, "files": files, "setattrs": []}
                     if prev is not None:
                         # a pure variable edit is delivered by rebinding the module attribute
-                        changed_vars = [n for n in spec["nodes"] if n["kind"] == "v" and n["vkind"] != "unsupported" and vprog.node(prev, n["name"])["value"] != n["value"]]
+                        changed_vars = [n for n in spec["nodes"] if n["kind"] == "v" and n["vkind"] not in ("unsupported", "mixedset", "tuplist") and vprog.node(prev, n["name"])["value"] != n["value"]]
                         others = [n for n in spec["nodes"] if n["kind"] != "v" and n != vprog.node(prev, n["name"])]
                         if changed_vars and not others:
                             ed["files"] = {}
